@@ -254,6 +254,13 @@ func (vm *VirtualMachine) resetForNewCode() {
 	vm.activeCode = nil
 	vm.loadedCode = map[*compiler.Code]*code{}
 	vm.modules = map[string]*object.Module{}
+	// Forget the file modules the earlier code imported, not the modules that
+	// are globals: applyOptions has registered those for this run already
+	for name, value := range vm.globals {
+		if module, ok := value.(*object.Module); ok {
+			vm.modules[name] = module
+		}
+	}
 
 	// Clear arrays
 	for i := 0; i < MaxStackDepth; i++ {
